@@ -131,10 +131,7 @@ def _sel(tree):
     entire = _one([_int(n.value, 'ENTIRE_RECORD') for n in g.body
                    if isinstance(n, ast.Assign) and len(n.targets) == 1 and _is_name(n.targets[0], 'ENTIRE_RECORD')],
                   'ENTIRE_RECORD')
-    start_ok = any(isinstance(n, ast.Assign) and len(n.targets) == 1 and _is_self_attr(n.targets[0], 'max_req_len')
-                   and _is_name(n.value, 'ENTIRE_RECORD') for n in g.body)
-    if not start_ok:
-        raise TieBroken('get_sel_entry does not start with max_req_len = ENTIRE_RECORD')
+    stateless, why = _sel_stateless(tree, g)
     floor, floor_test = _sel_floor(g)
     empty_stop, empty_test = _sel_empty_stop(g)
     cmp_entire, full, step, rec, shrink = [], [], [], [], []
@@ -209,7 +206,50 @@ def _sel(tree):
             'step': _one(step, 'max_req_len decrement'), 'ccShrink': _one(shrink, 'shrink code'),
             'ccCancel': _one(cancel, 'cancel code'), 'first': ids['START_SEL_RECORD_ID'],
             'last': ids['END_SEL_RECORD_ID'], 'floor': floor, 'budget': gac_retry if budget else None,
-            'emptyStop': empty_stop}
+            'emptyStop': empty_stop, 'stateless': stateless, 'statelessWhy': why}
+
+
+SEL_METHODS = ('get_sel_entry', 'sel_entries', 'get_sel_entries', 'get_and_clear_sel_entry', 'delete_sel_entry',
+               'get_sel_reservation_id', 'get_sel_entries_count')
+
+
+def _sel_stateless(tree, g):
+    """Does a call of the SEL retrieval functions see anything an EARLIER call left on the object?  True when
+      * `self.max_req_len = ENTIRE_RECORD` is a statement of get_sel_entry's own suite (unconditional: not inside an
+        if / try / loop), in front of the loop and of every other mention of self.max_req_len, and the only plain
+        assignment of ENTIRE_RECORD's name to it;
+      * no retrieval function of class Sel stores any OTHER attribute of self, and none reaches the attributes by
+        name (getattr / setattr / hasattr / vars / __dict__);
+    else (False, reason) - written to Gen/Loops10.lean as `selStateless`, where Props.C12.source_variant demands true."""
+    loops = [i for i, st in enumerate(g.body) if isinstance(st, ast.While)]
+    inits = [i for i, st in enumerate(g.body)
+             if isinstance(st, ast.Assign) and len(st.targets) == 1 and _is_self_attr(st.targets[0], 'max_req_len')
+             and _is_name(st.value, 'ENTIRE_RECORD')]
+    if len(inits) != 1 or not loops or inits[0] > loops[0]:
+        return False, ('get_sel_entry: `self.max_req_len = ENTIRE_RECORD` is not an unconditional statement in front of '
+                       'the loop (found %d at the top level)' % len(inits))
+    for st in g.body[:inits[0]]:
+        if any(_is_self_attr(n, 'max_req_len') for n in ast.walk(st)):
+            return False, 'get_sel_entry: self.max_req_len is mentioned before it is initialised'
+    others = [n for n in ast.walk(g) if isinstance(n, ast.Assign) and any(_is_self_attr(t, 'max_req_len') for t in n.targets)
+              and _is_name(n.value, 'ENTIRE_RECORD')]
+    if len(others) != 1:
+        return False, 'get_sel_entry: max_req_len is set to ENTIRE_RECORD in %d places' % len(others)
+    for node in tree.body:
+        if not (isinstance(node, ast.ClassDef) and node.name == 'Sel'):
+            continue
+        for f in node.body:
+            if not (isinstance(f, ast.FunctionDef) and f.name in SEL_METHODS):
+                continue
+            for n in ast.walk(f):
+                if isinstance(n, ast.Attribute) and isinstance(n.ctx, (ast.Store, ast.Del)) and _is_name(n.value, 'self') \
+                        and not (n.attr == 'max_req_len' and f.name == 'get_sel_entry'):
+                    return False, 'Sel.%s stores self.%s' % (f.name, n.attr)
+                if isinstance(n, ast.Name) and n.id in ('getattr', 'setattr', 'hasattr', 'delattr', 'vars'):
+                    return False, 'Sel.%s uses %s()' % (f.name, n.id)
+                if isinstance(n, ast.Attribute) and n.attr == '__dict__':
+                    return False, 'Sel.%s uses __dict__' % f.name
+    return True, ''
 
 
 def _is_retry_error(node):
@@ -337,7 +377,8 @@ def _sel_budget(c):
 
 DEFAULTS = {'fru': {'initReq': 32, 'dec': 2, 'caught': [202, 200, 201], 'writeLen': 16},
             'sel': {'entire': 255, 'full': 16, 'recLen': 16, 'step': 1, 'ccShrink': 202, 'ccCancel': 197,
-                    'first': 0, 'last': 65535, 'floor': 0, 'budget': 5, 'emptyStop': True}}
+                    'first': 0, 'last': 65535, 'floor': 0, 'budget': 5, 'emptyStop': True, 'stateless': True,
+                    'statelessWhy': ''}}
 
 
 def extract(need=('fru', 'sel')):
@@ -381,13 +422,21 @@ get_sel_entry: `if len(rsp.record_data) == 0: raise RetryError()` in front of `r
 (false = an empty completed answer is appended and the identical request sent again) -/
 def selVariant : PyIpmi.SelXfer.Variant := { floor := %s, budget := %s, emptyStop := %s }
 
+/-- get_sel_entry re-initialises `self.max_req_len = ENTIRE_RECORD` unconditionally in front of its loop and
+before any other mention of it, and the SEL retrieval functions of class Sel keep nothing else on the object:
+a call sees nothing an earlier call (one that ended in an exception included) left behind - the models of
+Model/SelXfer.lean take the device and nothing else.%s -/
+def selStateless : Bool := %s
+
 end PyIpmi.Gen.Loops10
 ''' % (f['initReq'], f['dec'], f['writeLen'],
        f['initReq'], f['dec'], ', '.join(str(x) for x in f['caught']), f['writeLen'],
        s['entire'], s['full'], s['recLen'], s['step'], s['ccShrink'], s['ccCancel'], s['first'], s['last'],
        'none' if s['floor'] is None else 'some (%d)' % s['floor'],
        'none' if s['budget'] is None else 'some %d' % s['budget'],
-       'true' if s.get('emptyStop') else 'false')
+       'true' if s.get('emptyStop') else 'false',
+       ('' if s.get('stateless', True) else '  NOT SO in the working tree: ' + s.get('statelessWhy', '').replace('-/', '- /')),
+       'true' if s.get('stateless', True) else 'false')
 
 
 def generate(need=('fru', 'sel')):
